@@ -384,7 +384,7 @@ impl Property for C02 {
     }
     fn cases(&self, tier: Tier) -> u32 {
         if tier.thorough() {
-            60_000
+            120_000
         } else {
             8_000
         }
